@@ -2,12 +2,13 @@
    Statements only.  Model: Model/SerdeValue.v (to_value, from_value, from_text).
    Specification: Spec/SerdeRoundTrip.v (neg_zero_norm, ser_spec = first position / last
    value, de_ok = same structure with every number denoting the same integer or double).
-   The dependencies are arguments of the model: [lossy] (json-number as_f64_lossy),
-   [fmt_lex] (lexical's float writer), [sj_parse] (serde_json's number parser); what is
-   assumed of them is spelt out in each statement and re-validated by every correspondence
-   run.  Known classes: K1 integer syntax that is not a 64-bit integer; K2 more than 19
-   significant digits; K3 nearest double infinite; K4 an object whose first key is
-   serde_json's private number token; K5 outside serde_json's exact float range. *)
+   Decimal -> double conversions (std's str::parse::<f64>, serde_json's float_roundtrip
+   parser in the text front end) are correctly rounded and modelled by the reference
+   Spec/NumSpelling.dbl.  The one dependency left as an argument is [fmt_lex] (lexical's
+   float writer behind NumberBuf::try_from(f64)); what is assumed of it is spelt out in each
+   statement and re-validated by every correspondence run.  Known classes: K3 nearest double
+   infinite (deserialises to null); K4 an object whose first key is serde_json's private
+   number token. *)
 From Coq Require Import SpecFloat.
 From JsonSyntax Require Import Base.Prelude Base.Value Base.Float64 Spec.Multimap
   Spec.NumSpelling Spec.SerdeData Spec.SerdeRoundTrip Model.SerdeValue
@@ -15,14 +16,13 @@ From JsonSyntax Require Import Base.Prelude Base.Value Base.Float64 Spec.Multima
 
 (* serialising a duplicate-free value reproduces it exactly, "-0" becoming "0" *)
 Theorem C17_ser : forall fmt_lex v,
-  wf_nums v = true -> K1 v = false -> K4 v = false -> nodup_keysb v = true ->
+  wf_nums v = true -> K4 v = false -> nodup_keysb v = true ->
   to_value fmt_lex v = Ok (neg_zero_norm v).
 Proof. exact to_value_reproduces. Qed.
 
 (* with duplicate keys: each key at its first position holding its last value *)
 Theorem C17_dups : forall fmt_lex v,
-  wf_nums v = true -> K1 v = false -> K4 v = false ->
-  to_value fmt_lex v = Ok (ser_spec v).
+  wf_nums v = true -> K4 v = false -> to_value fmt_lex v = Ok (ser_spec v).
 Proof. exact to_value_collapses. Qed.
 
 (* ... which is what inserting the entries one by one with Object::insert produces *)
@@ -35,65 +35,67 @@ Theorem C17_nodup_no_collapse : forall es : list entry,
 Proof. exact collapse_nodup. Qed.
 
 (* deserialising a Value from a Value *)
-Theorem C17_de : forall lossy fmt_lex,
-  (forall n, valid_number n = true -> is_int64 n = false -> K2num n = false -> lossy n = dbl n) ->
+Theorem C17_de : forall fmt_lex,
   (forall n, sf_is_finite (dbl n) = true -> dbl (fmt_lex (dbl n)) = dbl n) ->
-  forall v, wf_nums v = true -> K2 v = false -> K3 v = false -> K4 v = false ->
-  exists w, from_value lossy fmt_lex v = Ok w /\ de_ok v w = true.
+  forall v, K3 v = false -> K4 v = false ->
+  exists w, from_value fmt_lex v = Ok w /\ de_ok v w = true.
 Proof. exact from_value_preserves. Qed.
 
-(* deserialising a Value from JSON text through serde_json's self-describing deserializer *)
-Theorem C17_de_text : forall fmt_lex sj_parse,
-  (forall n, valid_number n = true -> is_int64 n = false -> sj_exact n = true ->
-             sj_parse n = if sf_is_finite (dbl n) then Some (dbl n) else None) ->
+(* deserialising a Value from JSON text through serde_json's self-describing deserializer
+   (which refuses a number whose nearest double is infinite: K3 is outside its domain) *)
+Theorem C17_de_text : forall fmt_lex,
   (forall n, sf_is_finite (dbl n) = true -> dbl (fmt_lex (dbl n)) = dbl n) ->
   fmt_lex (S754_zero true) = [0x2D; 0x30] ->
-  forall v, wf_nums v = true -> K5 v = false -> K3 v = false -> K4 v = false ->
-  exists w, from_text fmt_lex sj_parse v = Ok w /\ de_ok v w = true.
+  forall v, K3 v = false -> K4 v = false ->
+  exists w, from_text fmt_lex v = Ok w /\ de_ok v w = true.
 Proof. exact from_text_preserves. Qed.
 
 (* de_ok on a duplicate-free value compares with the value itself *)
 Theorem C17_de_nodup : forall v, nodup_keysb v = true -> collapse v = v.
 Proof. exact collapse_nodup_keys. Qed.
 
-(* the known classes are genuine deviations *)
-Theorem C17_K1_refuted : forall fmt_lex,
-  (wf_nums w_exp = true /\ K1 w_exp = true /\ K4 w_exp = false /\ nodup_keysb w_exp = true /\
-   to_value fmt_lex w_exp = Err ECustom) /\
-  (wf_nums w_big = true /\ K1 w_big = true /\ K4 w_big = false /\ nodup_keysb w_big = true /\
-   to_value fmt_lex w_big = Err ECustom).
-Proof. exact K1_refuted. Qed.
-
-Theorem C17_K2_refuted : forall lossy fmt_lex,
-  lossy w_long_s = sf_of_bits w_long_lossy_bits ->
-  fmt_lex (sf_of_bits w_long_lossy_bits) = w_long_printed ->
-  wf_nums w_long = true /\ K2 w_long = true /\ K3 w_long = false /\ K4 w_long = false /\
-  from_value lossy fmt_lex w_long = Ok (VNum w_long_printed) /\
-  de_ok w_long (VNum w_long_printed) = false /\
-  sf_bits (dbl w_long_s) = (w_long_lossy_bits + 1)%Z.
-Proof. exact K2_refuted. Qed.
-
-Theorem C17_K3_refuted : forall lossy fmt_lex,
-  lossy w_huge_s = S754_infinity false ->
-  wf_nums w_huge = true /\ K3 w_huge = true /\ K2 w_huge = false /\ K4 w_huge = false /\
-  from_value lossy fmt_lex w_huge = Ok VNull /\ de_ok w_huge VNull = false.
+(* the remaining known classes are genuine deviations *)
+Theorem C17_K3_refuted : forall fmt_lex,
+  K3 w_huge = true /\ K4 w_huge = false /\
+  from_value fmt_lex w_huge = Ok VNull /\ de_ok w_huge VNull = false.
 Proof. exact K3_refuted. Qed.
 
-Theorem C17_K4_refuted : forall lossy fmt_lex sj_parse,
-  wf_nums w_token = true /\ K4 w_token = true /\ K1 w_token = false /\ nodup_keysb w_token = true /\
+Theorem C17_K4_refuted : forall fmt_lex,
+  wf_nums w_token = true /\ K4 w_token = true /\ K3 w_token = false /\ nodup_keysb w_token = true /\
   to_value fmt_lex w_token = Ok (VNum (s2l "12")) /\
-  from_value lossy fmt_lex w_token = Ok (VNum (s2l "12")) /\
-  from_text fmt_lex sj_parse w_token = Ok (VNum (s2l "12")) /\
+  from_value fmt_lex w_token = Ok (VNum (s2l "12")) /\
+  from_text fmt_lex w_token = Ok (VNum (s2l "12")) /\
   de_ok w_token (VNum (s2l "12")) = false.
 Proof. exact K4_refuted. Qed.
 
-Theorem C17_K5_refuted : forall fmt_lex sj_parse,
-  sj_parse w_tiny_s = Some (S754_zero false) ->
-  fmt_lex (S754_zero false) = s2l "0" ->
-  wf_nums w_tiny = true /\ K5 w_tiny = true /\ K3 w_tiny = false /\ K4 w_tiny = false /\
-  from_text fmt_lex sj_parse w_tiny = Ok (VNum (s2l "0")) /\
-  de_ok w_tiny (VNum (s2l "0")) = false /\ sf_bits (dbl w_tiny_s) = 1%Z.
-Proof. exact K5_refuted. Qed.
+(* non-vacuity: a nested value (keys "a", U+00E9, U+10000; an array; numbers -12, u64::MAX,
+   1.5, 1e5, -0, 2.5e-3) meets every premise; results for the executable printer fmt_lex_ref *)
+Example C17_ser_instance :
+  wf_nums ex_v = true /\ K4 ex_v = false /\ nodup_keysb ex_v = true /\
+  neg_zero_norm ex_v = ex_v_ser /\ to_value fmt_lex_ref ex_v = Ok ex_v_ser.
+Proof. vm_compute. repeat split. Qed.
+
+Example C17_dups_instance :
+  wf_nums ex_vd = true /\ K4 ex_vd = false /\ nodup_keysb ex_vd = false /\
+  ser_spec ex_vd = VObj [(s2l "a", VObj ex_inner); ([0xE9], VNum (s2l "0"))] /\
+  to_value fmt_lex_ref ex_vd = Ok (ser_spec ex_vd).
+Proof. vm_compute. repeat split. Qed.
+
+Example C17_de_instance :
+  K3 ex_v = false /\ K4 ex_v = false /\
+  from_value fmt_lex_ref ex_v = Ok (ex_v_de (s2l "0")) /\ de_ok ex_v (ex_v_de (s2l "0")) = true.
+Proof. vm_compute. repeat split. Qed.
+
+Example C17_de_text_instance :
+  K3 ex_v = false /\ K4 ex_v = false /\
+  from_text fmt_lex_ref ex_v = Ok (ex_v_de (s2l "-0")) /\ de_ok ex_v (ex_v_de (s2l "-0")) = true.
+Proof. vm_compute. repeat split. Qed.
+
+Example C17_printer_instance :
+  dbl (fmt_lex_ref (dbl (s2l "1e5"))) = dbl (s2l "1e5") /\
+  dbl (fmt_lex_ref (dbl (s2l "2.5e-3"))) = dbl (s2l "2.5e-3") /\
+  fmt_lex_ref (S754_zero true) = s2l "-0".
+Proof. vm_compute. repeat split. Qed.
 
 Print Assumptions C17_ser.
 Print Assumptions C17_dups.
@@ -102,8 +104,10 @@ Print Assumptions C17_nodup_no_collapse.
 Print Assumptions C17_de.
 Print Assumptions C17_de_text.
 Print Assumptions C17_de_nodup.
-Print Assumptions C17_K1_refuted.
-Print Assumptions C17_K2_refuted.
 Print Assumptions C17_K3_refuted.
 Print Assumptions C17_K4_refuted.
-Print Assumptions C17_K5_refuted.
+Print Assumptions C17_ser_instance.
+Print Assumptions C17_dups_instance.
+Print Assumptions C17_de_instance.
+Print Assumptions C17_de_text_instance.
+Print Assumptions C17_printer_instance.
